@@ -192,9 +192,11 @@ def run(res, a):
                    "counter, register file and outputs are compared at every retire point until either leaves the program")
     cov["input_distribution"] = hist
     cov["traces_validated_against_impl"] = len(prep)
+    cov["programs"] = len(prep)
+    cov["disagreements_checked"] = hist["compared_retire_points"]
     cov["samples"] = [{"machine": cases[0][0]}]
     for text, meta in viol[:4]:
         res.violation("C01 " + text, meta)
     if failed and not viol:
         res.violation("C01 proof obligation no longer checks: %s" % (failed[:2],), {"obligation": [list(f) for f in failed][:3]}, nofail=True)
-    return res.finish("proof")
+    return res.finish("translation_validation")
